@@ -97,6 +97,11 @@ def _run_one(arg: tuple[int, Any]) -> tuple[int, Any]:
     signal.alarm(limit)
     try:
         res = _CHECK.run_shard(shard, _TIER)
+        # Make what travels back to the parent plain JSON data: library objects (e.g. str
+        # subclasses) can pickle in the worker yet fail to unpickle in the parent, which
+        # would hang the pool.
+        res.violations = json.loads(jdumps(res.violations))
+        res.samples = json.loads(jdumps(res.samples))
         return idx, res
     except BaseException:  # noqa: BLE001  harness failure must be loud
         return idx, ("HARNESS-ERROR", traceback.format_exc(), repr(shard)[:500])
